@@ -319,6 +319,51 @@ def specials():
     b.dirs.add('WORK')
     out.append(b.case({'name': '$T/par/c1', 'loader': None, 'py_dir': '$T/PAR'},
                       tags=['special:pydir-differs-by-case']))
+    # --- a custom step module is first asked for from a place where it is NOT importable
+    #     (failing, swallowed or not) and then by the pipeline sitting next to it --------------
+    def probe_then_owner(first_dir, owner_dir, probe_loader=None):
+        b = Builder()
+        b.files.append({'path': f'{first_dir}/probe.yaml', 'mod': 'c19step', 'calls': []})
+        b.files.append({'path': f'{owner_dir}/owner.yaml', 'mod': 'c19step', 'calls': []})
+        b.mods.append(f'{owner_dir}/c19step.py')
+        return b
+    for first_dir, owner_dir in (('cwd', 'cwd/sub'), ('g1', 'par'), ('cwd/pipelines', 'cwd')):
+        for ld in (None, 'c19_loader'):
+            # two pype children of one caller, the failing one swallowed
+            b = probe_then_owner(first_dir, owner_dir)
+            c1 = {'name': f'$T/{first_dir}/probe', 'raise': False}
+            if ld:
+                c1['loader'] = ld
+            b.add('g0/c0.yaml', [c1, {'name': f'$T/{owner_dir}/owner'}], mod=False)
+            out.append(b.case({'name': '$T/g0/c0', 'loader': None, 'py_dir': None},
+                              tags=['special:module-first-asked-elsewhere-swallowed']))
+            # the same as consecutive root runs of one process (first fails, not swallowed)
+            b = probe_then_owner(first_dir, owner_dir)
+            c = b.case({'name': f'$T/{first_dir}/probe', 'loader': ld, 'py_dir': None},
+                       tags=['special:module-first-asked-elsewhere-root-runs'])
+            c['more_invokes'] = [{'name': f'$T/{owner_dir}/owner', 'loader': None, 'py_dir': None}]
+            out.append(c)
+        # owner first, then the other pipeline: by then the module is importable from there too
+        b = probe_then_owner(first_dir, owner_dir)
+        b.add('g0/c0.yaml', [{'name': f'$T/{owner_dir}/owner'}, {'name': f'$T/{first_dir}/probe', 'raise': False}],
+              mod=False)
+        out.append(b.case({'name': '$T/g0/c0', 'loader': None, 'py_dir': None},
+                          tags=['special:module-owner-first']))
+        # nested: the swallowed failure happens two levels down
+        b = probe_then_owner(first_dir, owner_dir)
+        b.add('g0/c0.yaml', [{'name': '$T/g0/mid', 'raise': False}, {'name': f'$T/{owner_dir}/owner'}], mod=False)
+        b.add('g0/mid.yaml', [{'name': f'$T/{first_dir}/probe'}, {'name': '$T/g0/never'}], mod=False)
+        b.add('g0/never.yaml', [], mod=False)
+        out.append(b.case({'name': '$T/g0/c0', 'loader': None, 'py_dir': None},
+                          tags=['special:module-first-asked-elsewhere-nested-swallow']))
+    # a swallowed not-found child, then business as usual; and three root runs in a row
+    b = Builder()
+    b.add('par/c1.yaml', [{'name': 'nowhere', 'raise': False}, {'name': 'leaf'}])
+    b.add('par/leaf.yaml', [])
+    c = b.case({'name': '$T/par/c1', 'loader': None, 'py_dir': None}, tags=['special:swallowed-not-found'])
+    c['more_invokes'] = [{'name': 'nowhere', 'loader': None, 'py_dir': None},
+                         {'name': '$T/par/leaf', 'loader': None, 'py_dir': None}]
+    out.append(c)
     # --- the same pipeline requested twice (cache hit, same answer) ------------------------
     b = Builder()
     b.add('par/c1.yaml', [{'name': 'leaf'}, {'name': 'leaf'}, {'name': 'leaf', 'resolve': False}])
@@ -389,6 +434,8 @@ def random_case(rng):
             if r < 0.25:
                 c['loader'] = rng.choice(['c19_loader', 'c19_loader_np', 'c19_loader_nl',
                                           FILE_LOADER, None, ''])
+            if rng.random() < 0.15:
+                c['raise'] = False
             if rng.random() < 0.1:
                 c['pydir'] = rng.choice(['$T/' + rng.choice(DIR_POOL), '$T/nowhere', ''])
             calls.append(c)
@@ -403,6 +450,9 @@ def random_case(rng):
                                                        'c19_loader_np', 'c19_loader_nl']),
            'py_dir': rng.choice([None, None, None, '$T/' + rng.choice(DIR_POOL)])}
     c = b.case(inv, tags=['random'])
+    if rng.random() < 0.2:
+        c['more_invokes'] = [{'name': ref(rng.choice(names)), 'loader': None, 'py_dir': None}
+                             for _ in range(rng.randint(1, 2))]
     if rng.random() < 0.15:
         c['pre_syspath'] = ['$T/' + rng.choice(DIR_POOL + ['PAR', 'Cwd', 'g0'])]
     return c
